@@ -53,3 +53,126 @@ func VerifH_C16_toReflectValue() {
 		verifAssert(sameF64(rv.Float(), x), "float64 target: unchanged")
 	}
 }
+
+// C16-H1b: the conversion of numeric ARGUMENTS of bridged Go functions
+// (runtime.convertCallParameter -> convertNumeric): for every stored JavaScript
+// number representation (float64, int64, int32, uint32 payload symbolic) and
+// every numeric parameter kind, either the call fails with a RangeError /
+// TypeError exception (visible to the script) or the parameter value equals
+// the JavaScript number exactly.
+func VerifH_C16_call_parameter() {
+	vm := New()
+	var v Value
+	var asFloat float64
+	exactInt := false
+	var asInt int64
+	switch verifChoose(4) {
+	case 0:
+		x := verifNondetFloat64()
+		v, asFloat = numV(x), x
+	case 1:
+		x := verifNondetInt64()
+		v, asFloat, asInt, exactInt = Value{kind: valueNumber, value: x}, float64(x), x, true
+	case 2:
+		x := verifNondetInt32()
+		v, asFloat, asInt, exactInt = Value{kind: valueNumber, value: x}, float64(x), int64(x), true
+	default:
+		x := verifNondetUint32()
+		v, asFloat, asInt, exactInt = Value{kind: valueNumber, value: x}, float64(x), int64(x), true
+	}
+	types := []reflect.Type{
+		reflect.TypeOf(int8(0)), reflect.TypeOf(int16(0)), reflect.TypeOf(int32(0)), reflect.TypeOf(int64(0)), reflect.TypeOf(int(0)),
+		reflect.TypeOf(uint8(0)), reflect.TypeOf(uint16(0)), reflect.TypeOf(uint32(0)), reflect.TypeOf(uint64(0)), reflect.TypeOf(uint(0)),
+		reflect.TypeOf(float64(0)), reflect.TypeOf(float32(0)),
+	}
+	k := verifChoose(len(types))
+	var rv reflect.Value
+	var err error
+	kind, _ := verifCatch(func() { rv, err = vm.runtime.convertCallParameter(v, types[k]) })
+	verifCover("reached")
+	verifAssert(kind == verifNormal || kind == verifOttoExc, "a failed conversion is an exception of the script, not a Go panic")
+	if kind != verifNormal || err != nil {
+		verifCover("rejected")
+		return
+	}
+	verifCover("converted")
+	switch {
+	case k <= 4:
+		got := rv.Int()
+		if exactInt {
+			verifAssert(got == asInt, "signed parameter: exactly the integer")
+		} else {
+			verifAssert(float64(got) == asFloat && asFloat < 9223372036854775808.0, "signed parameter: exactly the JavaScript number")
+		}
+	case k <= 9:
+		got := rv.Uint()
+		if exactInt {
+			verifAssert(asInt >= 0 && got == uint64(asInt), "unsigned parameter: exactly the integer")
+		} else {
+			verifAssert(asFloat >= 0 && float64(got) == asFloat && asFloat < 18446744073709551616.0, "unsigned parameter: exactly the JavaScript number")
+		}
+	case k == 10:
+		verifAssert(sameF64(rv.Float(), asFloat), "float64 parameter: the number itself")
+	default:
+		got := rv.Float()
+		// narrowing to float32 is the denotation of a float32 parameter; it must
+		// not turn a finite number into an infinity
+		verifAssert(asFloat != asFloat || math.Abs(asFloat) > math.MaxFloat64 || math.Abs(got) <= math.MaxFloat32, "float32 parameter: a finite number stays finite")
+	}
+}
+
+// C16-H2: writes from JavaScript into a bridged Go slice act on the live Go
+// object with the checked conversion: sl[i] = x either fails loudly or stores
+// exactly x; reads see the Go contents; length is the Go length.
+func VerifH_C16_slice_write() {
+	vm := New()
+	x := verifNondetFloat64()
+	vm.Set("x", x)
+	idx := verifChoose(4) // 3 is one past the end
+	vm.Set("i", idx)
+	switch verifChoose(3) {
+	case 0:
+		sl := []int8{1, 2, 3}
+		vm.Set("sl", sl)
+		kind, _ := verifCatch(func() { vm.Run("sl[i] = x") })
+		verifCover("reached")
+		verifAssert(kind == verifNormal, "a refused write is an error returned by Run, not a Go panic")
+		if idx < 3 {
+			if kind == verifNormal {
+				got := sl[idx]
+				verifAssert(float64(got) == x || got == []int8{1, 2, 3}[idx], "int8 element: exactly x was stored, or the write was refused")
+			}
+			for j := 0; j < 3; j++ {
+				if j != idx {
+					verifAssert(sl[j] == []int8{1, 2, 3}[j], "other elements untouched")
+				}
+			}
+		}
+		v, err := vm.Run("sl.length")
+		if err == nil {
+			f, _ := v.ToFloat()
+			verifAssert(f >= 3, "length reflects the Go slice")
+		}
+	case 1:
+		sl := []uint16{1, 2, 3}
+		vm.Set("sl", sl)
+		kind, _ := verifCatch(func() { vm.Run("sl[i] = x") })
+		verifCover("reached")
+		verifAssert(kind == verifNormal, "a refused write is an error returned by Run, not a Go panic")
+		if idx < 3 && kind == verifNormal {
+			got := sl[idx]
+			verifAssert(float64(got) == x || got == []uint16{1, 2, 3}[idx], "uint16 element: exactly x was stored, or the write was refused")
+		}
+	default:
+		sl := []float64{1, 2, 3}
+		vm.Set("sl", sl)
+		kind, _ := verifCatch(func() { vm.Run("sl[i] = x") })
+		verifCover("reached")
+		if idx < 3 && kind == verifNormal {
+			verifAssert(sameF64(sl[idx], x), "float64 element: x stored unchanged")
+			r, _ := vm.Run("sl[i]")
+			rf, _ := r.ToFloat()
+			verifAssert(sameF64(rf, x), "and read back")
+		}
+	}
+}
